@@ -1274,6 +1274,13 @@ def h_extend(I, st, a, t, b):
     return ()
 
 
+def h_range_inclusive(I, st, a, t, b):
+    lo, hi = a[0], a[1]
+    if isinstance(lo, int) and isinstance(hi, int):
+        return {'#iter': 'range', 'cur': lo, 'end': hi + 1}
+    raise Undecided('inclusive range with symbolic bounds')
+
+
 def h_iter_all(I, st, a, t, b):
     for x in _items_of(I, st, a[0]):
         if not _truth(_call_f(I, st, a[1], [x])):
@@ -1331,6 +1338,6 @@ BUILTINS.update({
     'Option::is_none': h_opt_is_none, 'Option::copied': h_opt_copied, 'Option::cloned': h_opt_copied,
     'Iterator::zip': h_zip, 'Iterator::map': h_iter_map, 'Iterator::all': h_iter_all, 'Iterator::any': h_iter_any,
     'Iterator::find': h_iter_find, 'Iterator::collect': h_iter_collect, 'Iterator::copied': h_iter_copied, 'Iterator::cloned': h_iter_copied,
-    'array::map': h_array_map, 'array::from_fn': h_array_from_fn,
+    'array::map': h_array_map, 'array::from_fn': h_array_from_fn, 'RangeInclusive::new': h_range_inclusive,
     'Iterator::filter': h_iter_filter, 'Iterator::filter_map': h_iter_filter_map, 'Extend::extend': h_extend, 'Vec::extend': h_extend,
 })
